@@ -176,6 +176,30 @@ PROPS.update({
     },
 })
 
+PROPS.update({
+    "C18": {
+        "level_text": "Model checking of the Python objects: every (class, alphabet, size, reuse history) is a state of a real object built inside embedded CPython and every obj[i], len(), list() and memoryview() read is a checked transition. Complete product of all classes with __getitem__ x sizes x EVERY integer index in [-len-2, len+1] plus +-2**62, +-2**63; every exposed cell of every buffer view compared with the logical element it stands for; explicit-state BFS to fixpoint over reuse histories of one StripedSequence ({calculate with widths 5,15,33,40, copy}: fresh / within the reserved rows / reallocating) with a fresh view fully checked after every transition; the history 'view held across a reallocating reuse' is run under valgrind (both tiers).",
+        "level_note": "Trusted: the logical-element models (symbol ranks, constructor cells, integer-valued scores, a 40-line f64 model of the discretised survival function), CPython's memoryview as the reader of shape/strides/format, valgrind memcheck for the stale-view history. Views are never dereferenced outside the memory the object is known to own (such cells are counted, not read). Py_buffer.len/nbytes and buffer requests other than memoryview()'s PyBUF_FULL_RO are outside the statement and not checked.",
+        "technique": "bounded-exhaustive product over classes x sizes x all indices, plus explicit-state BFS by re-execution over buffer-reuse histories, against a logical-element model; one history under a memory monitor",
+        "level": "model_checking",
+        "package": "vx-py", "engine": "vx-py",
+        "profiles": ["rel"],
+        "monitors": {
+            "quick": [{"name": "rel", "variant": "rel"},
+                      {"name": "valgrind", "variant": "rel", "only": "stale_view", "shards": 1, "env": {"PYTHONMALLOC": "malloc"}}],
+            "thorough": [{"name": "rel", "variant": "rel"},
+                         {"name": "valgrind", "variant": "rel", "only": "stale_view", "shards": 1, "env": {"PYTHONMALLOC": "malloc"}}],
+        },
+        "wall": {"quick": 120, "thorough": 900},
+        "rule": "One evaluation = one obj[i] / len / list call or one fully compared view; state = one object in one reuse state, transition = one read or one reuse operation followed by a full view comparison; non-trivial = the object has at least one logical element; distinct by construction of the product / BFS.",
+        "assumptions": COMMON_ASSUMPTIONS + [
+            "dense K-column matrices have row stride 8 (K=5) / 24 (K=21) elements and striped objects 32 columns - used only to bound the memory a view may touch",
+            "BFS key (look-ahead rows, row capacity modelled by Vec's growth rule): the only mutable state of a StripedSequence; every transition is checked before merging",
+            "cells of a StripedScores view for positions >= len stand for no logical element (any value accepted, must lie inside the object)",
+        ],
+    },
+})
+
 # properties not claimed (with reason); kept current as checks are added
 NOT_APPLICABLE = [
     {"property_id": p, "reason": "check not built yet in this round (planned in DESIGN.md section 2); not claimed until its harness exists"}
